@@ -83,7 +83,7 @@ def snapshot_diff(a, b) -> str:
 
 
 # ---------------------------------------------------------------- generation --------------------------
-NOISE = ["to_sql", "sql_exec", "repr", "to_python", "columns_used", "describe_table", "derive", "derive", "record_map"]
+NOISE = ["to_sql", "sql_exec", "repr", "to_python", "columns_used", "describe_table", "derive", "derive", "record_map", "house_eval"]
 
 
 def generate(run_seed: int, cfg: Dict[str, Any]) -> Dict[str, Any]:
@@ -413,6 +413,19 @@ def _run(scn, log: EventLog, stats: Stats):
                                             stats.probe("record-map-applied-directly")
                                         except Exception:
                                             stats.probe("record-map-applied-directly:raised")
+                        elif w == "house_eval":
+                            # one evaluation on an explicitly supplied, locally customised Pandas model (its own arithmetic):
+                            # whatever it computes is the caller's business, but it must stay confined to that call
+                            from data_algebra.pandas_model import PandasModel
+
+                            house = PandasModel()
+                            off = 1000.0 + 10.0 * (step % 50) + float(int(scn["seed"]) % 7)
+                            house.user_fun_map["+"] = lambda a, b, off=off: a + b + off
+                            house.user_fun_map["*"] = lambda a, b, off=off: a * b + off
+                            house.user_fun_map["-"] = lambda *a, off=off: (a[0] - a[1] + off) if len(a) == 2 else (-a[0] + off)
+                            house.user_fun_map["abs"] = lambda a, off=off: abs(a) + off
+                            o.eval({n: pool["pd:" + n + ":0"] for n in tabs}, data_model=house)
+                            stats.probe("evaluated-on-a-customised-model")
                         elif w == "derive":
                             stats.probe("derived-pipelines-built", _derive(o))
                         elif w == "describe_table":
@@ -641,7 +654,7 @@ TIERS = {
 RULE = ("one evaluation = one seeded scenario: a pool of caller-owned frames (1-3 tables x {Pandas with a seeded index "
         "labelling, Polars eager or lazy}, also captured by reference via data()/descr()), 2-6 pipelines of up to 6 steps "
         "from the C18 generator, and a history of 8-30 (thorough: 8-40) operations by 2-3 interleaved clients: eval / "
-        "transform / >> / ex() on Pandas and Polars, SQL generation and execution, repr/to_python/columns_used, building (and discarding) derived pipelines on top of a live pipeline object, applying a record map to the frames directly, "
+        "transform / >> / ex() on Pandas and Polars, SQL generation and execution, repr/to_python/columns_used, building (and discarding) derived pipelines on top of a live pipeline object, applying a record map to the frames directly, one-off evaluations on a customised Pandas model, "
         "describe_table; odd run-seeds abort 10-35% of the evaluations at a chosen executor call-back (F4) and let clients "
         "mutate, in place, result frames they were handed earlier (F6). After "
         "every operation all pool frames are compared with their creation snapshots and every result with the first "
